@@ -21,6 +21,9 @@ ID = "C15"
 TECHNIQUE = ("explicit-state breadth-first search over call histories of the real setup objects (merged by a digest of the "
              "whole object graph, plus an un-merged pass with congruence check) against a life-cycle model with isolated-run "
              "reference results; exhaustive enumeration of PoSER constructor inputs against a predicate written from the statement")
+LEVEL_TEXT = ("A: every call history up to the stated depth over add/run/run_all/mpe/save+load/decoy is executed on fresh real setups and "
+              "every algorithm is compared bit-wise with its isolated reference after every transition; B: every PoSER constructor input of the "
+              "stated space is constructed and compared with the predicate written from the statement")
 RULE = ("A: a history is a sequence of events on a fresh setup; non-trivial = it runs at least two different algorithms or "
         "re-runs/extracts after another algorithm ran, or contains a rejected call; distinct by (object kind, subset, event "
         "sequence). B: a constructor input is (setups, names); non-trivial = at least two setups, all non-empty (so that "
